@@ -2148,7 +2148,7 @@ class PseudoNetCDFFile(PseudoNetCDFSelfReg, object):
             for di, dk in sdims:
                 outvals = outvals.take(0, axis=di)
 
-            ov[...] = outvals[...]
+            ov[...] = np.asarray(outvals)
         return outf
 
     def __repr__(self):
